@@ -143,4 +143,15 @@ PROPS = {
         ],
         "assumptions": ["every step of the loop body forwards signals in FIFO order with the travelers (true of the linear steps; both()/bothE() forward signals ahead of buffered travelers and are outside this model)", "marks with several jumps, and nested loops, are outside the model"],
     },
+    "C17": {
+        "translators": ["LockTable"],
+        "race": True,
+        "trusted_base": [
+            "the translator harness/cmd/translate (go/ast, lexical): every selector access to the guarded fields (server: dbs graphMap schemas mappings plugins sources under GripServer.mu; kvindex: Fields under KVIndex.fieldLock; jobstorage: Status under Job.lock) with the lock state at that statement (statement order within a block, deferred unlock = held to the end, function literals start unlocked, branches that disagree are emitted as unrecognised); WHICH fields are shared and which mutex guards them is a hand-written list; aliasing of the maps through local variables is not tracked (the accessor functions return copies)",
+            "Model/Conc.v part 1 is an interleaving model with sequentially consistent memory and reader/writer mutexes; 'race' = two threads about to access the same variable, one writing",
+            "Model/Conc.v part 2 treats each store operation as atomic (one store transaction); kvgraph/badger/pebble transactions are assumed atomic and are exercised, not modelled",
+            "the Go race detector (happens-before, sampled schedules) is the dynamic oracle for everything the lock table does not list (store internals, engine, index)",
+        ],
+        "assumptions": ["shared state outside the three listed structs is found only by the race detector on the schedules that occur", "gRPC runs each request handler on its own goroutine; the harness calls the handlers directly from concurrent goroutines"],
+    },
 }
